@@ -435,6 +435,19 @@ pub fn run(ctx: &Ctx) {
     for t in ["2015-07-30T03:26:13Z", "2015-07-30T03:26:13+02:00", "1", "-1", "1.5", "true", "none", "PT1S", "[i1]", "{}", "", "i1", "d1.5"] {
         pool.push(Value::String(t.to_string()));
     }
+    // NaNs other than the default quiet one (sign, payload, signalling), and date-times that carry a leap-second
+    // representation (nanosecond part >= 10^9) on an arbitrary second: all of them round-trip bit for bit
+    for bits in [0xfff8_0000_0000_0000u64, 0x7ff8_0000_0000_0001, 0x7ff0_0000_0000_0001, 0xfff0_dead_beef_0001, 0x7fff_ffff_ffff_ffff] {
+        pool.push(Value::Float(f64::from_bits(bits)));
+    }
+    {
+        use chrono::Timelike;
+        for (secs, nanos) in [(1_438_226_773i64, 1_500_000_000u32), (0, 1_000_000_000), (1_483_228_799, 1_999_999_999), (-1, 1_250_000_000), (86_400 * 365, 1_000_000_001)] {
+            if let Some(d) = DateTime::<Utc>::from_timestamp(secs, 0).and_then(|d| d.with_nanosecond(nanos)) {
+                pool.push(Value::DateTime(d));
+            }
+        }
+    }
     // values of one kind shaped like the contents of another: lists of [key, value] pairs, maps keyed 0..n, singletons
     let pair = |k: &str, v: Value| Value::Vec(vec![Value::String(k.into()), v]);
     pool.push(Value::Vec(vec![pair("width", Value::Int(3)), pair("height", Value::Int(4))]));
